@@ -63,6 +63,21 @@ class ExprMixin:
         return m(node, st)
 
     def ev_bool(self, node, st):
+        """truth value of an expression in a test context (operands of and/or need not be booleans)"""
+        if isinstance(node, ast.BoolOp):
+            saved = list(st.guard)
+            cs = []
+            try:
+                for k, e in enumerate(node.values):
+                    c = self.ev_bool(e, st)
+                    cs.append(c)
+                    if k < len(node.values) - 1:
+                        st.guard.append(c if isinstance(node.op, ast.And) else z3.Not(c))
+            finally:
+                st.guard[:] = saved
+            return zand(*cs) if isinstance(node.op, ast.And) else zor(*cs)
+        if isinstance(node, ast.UnaryOp) and isinstance(node.op, ast.Not):
+            return z3.Not(self.ev_bool(node.operand, st))
         return truthy(self.ev(node, st))
 
     def spec_eval(self, src_or_node, st, extra=None):
@@ -331,6 +346,9 @@ class ExprMixin:
         if isinstance(coll, VList):
             if getattr(coll, "empty_literal", False):
                 return z3.BoolVal(False)
+            cn = const_int(VInt(z3.simplify(coll.n)))
+            if cn is not None and cn <= 24:
+                return zor(*[eq(unpack(coll.ety, z3.simplify(z3.Select(coll.a, k))), x) for k in range(cn)])
             i = z3.Int(fresh_name("ci"))
             return z3.Exists([i], z3.And(0 <= i, i < coll.n, eq(coll.get(i), x)))
         self.unsupported(node, "`in` on %s" % coll.ty)
@@ -641,7 +659,7 @@ class ExprMixin:
             self.oblige(st, "safety", node, present, "KeyError")
             return unpack(d.vty, z3.Select(d.a, k))
         # defaultdict: a read of a missing key inserts the default
-        dv = coerce(self.spec_eval(d.ty.default, State()), d.vty)
+        dv = zero_value(d.vty) if d.ty.default == "new" else coerce(self.spec_eval(d.ty.default, State()), d.vty)
         val = ite(present, unpack(d.vty, z3.Select(d.a, k)), dv)
         if self.spec_depth == 0 and write_back is not None:
             g = zand(*st.guard)
@@ -673,6 +691,9 @@ class ExprMixin:
             self.oblige(st, "safety", node, z3.Not(base.isnone), "attribute of None")
             base = base.v
         if isinstance(base, VRec):
+            b = self.cur_bind().get("%s.%s" % (base.ty.rname, node.attr))
+            if b and b.startswith("class:"):
+                return VFunc(None, b)
             if node.attr in base.f:
                 return base.f[node.attr]
             cv = self.class_const(base.ty.rname, node.attr)
